@@ -5,6 +5,8 @@ ziggurat equations.  Part 2: the two call sites of `ziggurat` are wired to a con
 symmetry flag, a pdf that is the family's density (polynomial-exponent domain) and a tail routine that uses this
 family's tail start.  Part 3 (inside `ziggurat`) lives in rules_c06_alg.py (value-numbering rules).
 """
+CONFIGS_THOROUGH = ["serde", "release"]
+
 import math
 from fractions import Fraction
 
